@@ -79,6 +79,25 @@ class C03(Prop):
             add(src, "templates")
         for _ in range(n // 10):
             add(self.gen_script(rng, True), "sqrt")
+        # dense constant arithmetic: nested trees over integer literals whose intermediate results leave the
+        # inline range (negative, > 65534), are zero (division), or fold in several steps
+        def cexpr(d):
+            if d <= 0 or rng.random() < 0.3:
+                return str(rng.choice([0, 1, 2, 3, 5, 7, 10, 60, 24, 100, 300, 1000, 65534, 65535]))
+            op = rng.choice(["+", "-", "*", "/", "+", "-", "*"])
+            l, r = cexpr(d - 1), cexpr(d - 1)
+            form = rng.random()
+            if form < 0.5:
+                return "(%s %s %s)" % (l, op, r)
+            if form < 0.75:
+                return "%s %s (%s)" % (l, op, r)
+            return "%s %s %s" % (l, op, r)
+        ctx = ["return %s;", "x = %s; return x;", "if (%s > 3) { t(1); } else { t(2); } return 0;", "return u(%s);", "x = A ? %s : 2; return x;",
+               "i = 0; while (i < (%s)) { i++; if (i > 3) { return i; } } return i;", "return [%s, 1][0];", "function f(a) { return a + %s; } return f(1);",
+               "return %s == %s;", "switch (%s) { case 0 { t(0); } case 1 { t(1); } default { t(9); } } return 1;", "return Count + %s;", "return %s + Count;"]
+        for _ in range(n):
+            c = rng.choice(ctx)
+            add(c % tuple(cexpr(rng.choice([2, 3, 4])) for _ in range(c.count("%s"))), "const-arith")
         return out
 
     def judge_groups(self, groups, go):
